@@ -6,6 +6,9 @@ NLink   == atoi(IOEnv.VT_NLINK)
 NMods   == atoi(IOEnv.VT_NMODS)
 NParams == atoi(IOEnv.VT_NPARAMS)
 Phrases == {"obj_ref", "repeat_modifiers", "rule_params"}
+\* a rule body that the compiler reduces to a bare rule reference
+AliasBody == Sq(<<Al(<<Cl("ALIASREF"), Sq(<<Tk("("), Cl("ALIASREF"), Op(Tk("-"), 1), Tk(")")>>)>>, <<0, 1>>),
+                  Op(Tk("-"), 1)>>)
 MCSeeds == <<
   \* 1: the whole grammar; links, repeat modifiers and rule parameters in their default form
   [todo |-> <<Nt("textx_model")>>, n |-> NMain, zr |-> Phrases, dev |-> {}],
@@ -34,7 +37,13 @@ MCSeeds == <<
    n |-> 3, zr |-> {}, dev |-> {}],
   [todo |-> <<Tk("A"), Tk(":"), Tk("x"), Nt("assignment_op"), Tk("'a'"),
               Tk("x"), Nt("assignment_op"), Nt("assignment_rhs"), Tk(";")>>,
-   n |-> 3, zr |-> {"obj_ref", "repeat_modifiers"}, dev |-> {}]
+   n |-> 3, zr |-> {"obj_ref", "repeat_modifiers"}, dev |-> {}],
+  \* 12, 13: rules whose body is only a rule reference (plain, bracketed, suppressed): two and three rules
+  [todo |-> <<Tk("A"), Tk(":"), AliasBody, Tk(";"), Tk("B"), Tk(":"), AliasBody, Tk(";")>>,
+   n |-> 3, zr |-> {}, dev |-> {}],
+  [todo |-> <<Tk("A"), Tk(":"), Tk("B"), Tk(";"), Tk("B"), Tk(":"), AliasBody, Tk(";"),
+              Tk("C"), Tk(":"), AliasBody, Tk(";")>>,
+   n |-> 3, zr |-> {}, dev |-> {}]
 >>
 NoDev   == {}
 EnvDev  == IF IOEnv.VT_DEV = "" THEN {} ELSE {IOEnv.VT_DEV}
